@@ -2,6 +2,7 @@ import SeqVerif.Model.WritePathInv
 import SeqVerif.Model.WPIndexLemmas
 import SeqVerif.Model.WPPlain
 import SeqVerif.Model.FileWriterProofs
+import SeqVerif.Model.WPConcurrent
 import SeqVerif.Extracted.C01
 /-!
 # C01 - acknowledged bulks survive any crash/restart history, intact and uncorrupted
@@ -214,6 +215,70 @@ theorem c01_serialised_pair (a b : Blk × Blk) (ha : a.1.WF ∧ a.2.WF) (hb : b.
     · exact trivial)
   exact ⟨h a (by simp [ackedOf]), h b (by simp [ackedOf])⟩
 
+/-- **C01 (the mutex serialises, for every interleaving).**  Two concurrent `ActiveWriter.Write` calls, modelled step
+by step (take `a.mu`; docs write, remembering the offset; stamp + meta write + index + release), under **every**
+schedule and at **every** moment of it: the store is in one of the states of `Serial` - untouched, one bulk's docs
+block written and nothing else (a crash there is `crashDisk .. (.metaTorn 0)`), one bulk appended, ..., and once
+both have finished it is `append (append st A) B` or `append (append st B) A`.  So the histories of `Ev` (whole
+bulks, crashes inside one bulk) are all there is, and the history theorems cover concurrent clients. -/
+theorem c01_mutex_serialises (st0 : St) (da ma db mb : Bytes) (sched : List Bool) :
+    Serial st0 da ma db mb (crun true da ma db mb (cinit st0) sched) ∧
+    ((crun true da ma db mb (cinit st0) sched).pa = 3 → (crun true da ma db mb (cinit st0) sched).pb = 3 →
+      (crun true da ma db mb (cinit st0) sched).st = append (append st0 da ma) db mb ∨
+      (crun true da ma db mb (cinit st0) sched).st = append (append st0 db mb) da ma) := by
+  have h := serial_run st0 da ma db mb sched (cinit st0) (.inl ⟨rfl, rfl, rfl, rfl⟩)
+  refine ⟨h, fun ha hb => ?_⟩
+  simp only [Serial] at h
+  rcases h with h | h | h | h | h | h | h | h | h | h | h | h <;>
+    first
+    | exact h.2.2.2
+    | (exfalso; omega)
+
+/-- without the mutex the schedule A A B B B A is the interleaving of `c01_counterexample_interleaved_writes` -/
+theorem c01_no_mutex_interleaves (st0 : St) (da ma db mb : Bytes) :
+    (crun false da ma db mb (cinit st0) [false, false, true, true, true, false]).st =
+      appendInterleaved st0 da ma db mb := by
+  simp [crun, cstep, cinit, docsStep, metaStep, appendInterleaved, Nat.add_assoc]
+
+/-- **C01 (the store does not depend on the client's ext fields).**  Whatever Ext1 / Ext2 an incoming meta block
+carries, the store ends in the same state: `ActiveWriter.Write` overwrites both.  (All history theorems quantify over
+arbitrary incoming values; this says they do not even influence the state.) -/
+theorem c01_incoming_ext_irrelevant (fix : Bool) (st : St) (d m : Blk) (e1 e2 : Nat) (pt : CrashPt) :
+    step fix st (.bulk d { m with ext1 := e1, ext2 := e2 }) = step fix st (.bulk d m) ∧
+    step fix st (.tornBulk d { m with ext1 := e1, ext2 := e2 } pt) = step fix st (.tornBulk d m pt) := by
+  have hs : ∀ a b, stampMeta (enc { m with ext1 := e1, ext2 := e2 }) a b = stampMeta (enc m) a b := by
+    intro a b; simp [stampMeta_enc]
+  constructor
+  · simp only [step, append, hs]
+  · cases pt <;> simp only [step, crashDisk, hs]
+
+/-- **C01 (replay reproduces the offsets the writer recorded).**  After any history, every block the index holds is
+the encoding of a header whose **Ext2** is exactly the docs offset the index uses for it (the offset the writer was
+given when it wrote the docs block - live reads use it, and the replay, which re-derives offsets as the running sum
+of **Ext1**, arrives at the same value), whose Ext1 is the length of the docs block, and that offset holds the block. -/
+theorem c01_replay_offsets_are_recorded (h : List Ev) (hwf : ∀ e ∈ h, e.WF) :
+    ∀ e ∈ (run true init h).idx, ∃ b d : Blk, e.blk = enc b ∧ b.ext2 = e.pos ∧ b.ext1 = (enc d).length ∧
+      readBlockAt (run true init h).docs e.pos = some (enc d) := by
+  have hinv := run_fixed h init [] inv_init hwf
+  simp only [List.nil_append] at hinv
+  intro e he
+  rw [hinv.idx, entriesOf, List.mem_map] at he
+  obtain ⟨t, ht, rfl⟩ := he
+  obtain ⟨h1, h2⟩ := stamped_fields _ 0 t ht
+  refine ⟨t.2.1, t.1, rfl, h1, h2, ?_⟩
+  have := readBlockAt_stamped _ hinv.wf [] [] 0 rfl t ht
+  simpa [hinv.docs] using this
+
+/-- a writer that keeps the client's Ext1 (no `SetExt1`): a client that leaves Ext1 = 0 is served until the next
+restart; the replay then puts the second bulk at offset 0 and cuts the docs file down to the sum of the Ext1 values -/
+def wm1z : Blk := { wm1 with ext1 := 0 }
+theorem c01_counterexample_client_ext1 :
+    let st := appendKeepExt1 (appendKeepExt1 init (enc wd1) (enc wm1z)) (enc wd2) (enc wm2)
+    present st wd1 wm1z = true ∧ present st wd2 wm2 = true ∧
+    present (restart true st.docs st.mfile) wd1 wm1z = false ∧ present (restart true st.docs st.mfile) wd2 wm2 = false ∧
+    (restart true st.docs st.mfile).docs.length = 35 ∧ st.docs.length = 71 := by
+  decide
+
 /-- both histories are harmless for the repaired start-up (instances of `c01_acked_survive`, re-checked by evaluation) -/
 theorem c01_witnesses_repaired :
     present (run true init orphanHistory) wd2 wm2 = true ∧ present (run true init tornMetaHistory) wd2 wm2 = true := by
@@ -326,11 +391,12 @@ theorem c01_x_header_layout :
     fullLen = "return b.Len() + DocBlockHeaderLen" := by decide
 
 open SV.Extracted.C01 in
-/-- `ActiveWriter.Write` is serialised, writes (and fsyncs) the docs block first, gives up before touching the meta
+/-- `ActiveWriter.Write` holds `a.mu` from its first statement to its return (the `mutex = true` system of
+`c01_mutex_serialises`), writes (and fsyncs) the docs block first, gives up before touching the meta
 file when that failed, stamps ext1 := len(docs) and ext2 := docs offset, then writes the meta block -
 the order `append` / `crashDisk` model -/
 theorem c01_x_write_order :
-    activeWriterWriteOps = ["a.mu.Lock", "a.docs.Write docs", "if err != nil return err",
+    activeWriterWriteOps = ["a.mu.Lock", "defer a.mu.Unlock", "a.docs.Write docs", "if err != nil return err",
       "disk.DocBlock(meta).SetExt1 uint64(len(docs))", "disk.DocBlock(meta).SetExt2 uint64(offset)",
       "a.meta.Write meta"] ∧
     appendCalls = ["f.writer.Write", "f.indexer.Index"] := by decide
